@@ -35,7 +35,7 @@ def gen(seed, idx, tier):
         screening=screening,
         steps=(3, 12),
         dt_choices=[1e-3, 0.01, 0.05],
-        n_terminals=rnd.choice([0, 2, 3]),
+        n_terminals=rnd.choice([0, 2, 3, 4, 4]),
         field_kinds=("const", "ramp", "pw", "sin"),
         size=rnd.choice(["small", "medium"]),
     )
@@ -101,7 +101,7 @@ def run(scn):
                 Violation(
                     "not-reproducible",
                     f"execution {j} differs from the reference execution in {diff}; environment difference: "
-                    + ", ".join(f"{k}: {va[k]} -> {vb[k]}" for k in ("threads", "chunk", "affinity", "output", "cwd", "prework", "rng_seed") if va[k] != vb[k]),
+                    + ", ".join(f"{k}: {va[k]} -> {vb[k]}" for k in ("hashseed", "threads", "chunk", "affinity", "output", "cwd", "prework", "rng_seed") if va[k] != vb[k]),
                     parts=diff,
                     screening=bool(base_scn["options"]["include_screening"]),
                 )
